@@ -76,10 +76,10 @@ def run(cfg):
     R = Report('C13', cfg)
     lib = cxx.load_lib(cfg)
     R.analysed['translation_units'] = ['tu/lib.cpp']
-    R.rule('R1', 'getNow(): the elapsed-time test is a modular difference at the width of mPrevMillis', floor=2)
-    R.rule('R2', 'getNow(): loop threshold == mPrevMillis step, paired with +1 second in the same block', floor=1)
-    R.rule('R3', 'invalid/sentinel guards precede every other effect (getNow, syncNow, setNow)', floor=3)
-    R.rule('R4', 'syncNow(): every path that accepts the value re-bases mPrevMillis from clockMillis(), sets mIsInit and holds the value', floor=2)
+    R.rule('R1', 'after a set at counter m0 every reading at counter m is T + floor((m - m0) / 1000): getNow/syncNow interpreted on polling schedules incl. 16- and 32-bit wrap-around', floor=2)
+    R.rule('R2', 'the millisecond reference is an unsigned 16-bit field (the 64,536 ms polling bound depends on it)', floor=1)
+    R.rule('R3', 'an unset clock reads the sentinel; setting the sentinel changes nothing; setNow() sets like syncNow()', floor=3)
+    R.rule('R4', 'a repeated set re-bases the millisecond reference; a fresh clock holds the sentinel and is not initialised', floor=2)
     R.rule('R5', 'outside syncNow() the seconds counter is only incremented by a positive constant', floor=1)
 
     def ob(rid, c, loc, ok, msg, detail=None):
@@ -88,157 +88,28 @@ def run(cfg):
             R.violation(rid, c, loc, msg, detail)
     fields = {n: t for n, t, _ in lib.fields(SC)}
     wprev = int_type(fields.get('mPrevMillis'))
-    ob('R1', SC + '::mPrevMillis', 'src/ace_time/clock/SystemClock.h', wprev is not None and not wprev[1] and wprev[0] == 16,
+    ob('R2', SC + '::mPrevMillis', 'src/ace_time/clock/SystemClock.h', wprev is not None and not wprev[1] and wprev[0] == 16,
        'mPrevMillis is %s: the 64,536 ms polling bound of the statement assumes an unsigned 16-bit reference' % fields.get('mPrevMillis'))
-    g = lib.fn(SC + '::getNow')
-    loops = [s for s in walk_stmts(g.body) if s.k == 'loop']
-    if len(loops) != 1 or loops[0].a[2] is None:
-        raise AnalysisError('%s: getNow() is expected to contain one catch-up loop' % g.loc)
-    lp = loops[0]
-    cond = lp.a[2]
-    c = cond
-    while c.k == 'cast' and c.a[0] >= 32:
-        c = c.a[2]
-    ok, why = False, 'loop condition is %s' % show(cond)
-    thr = None
-    if c.k == 'bin' and c.a[0] in ('<=', '<') and _is_const(c.a[1]):
-        # `1000 <= diff` is `diff >= 1000`
-        c = E('bin', {'<=': '>=', '<': '>'}[c.a[0]], c.a[2], c.a[1], loc=c.loc, ty=c.ty)
-    if c.k == 'bin' and c.a[0] in ('>=', '>'):
-        lhs = strip_widening(c.a[1])
-        rhs = c.a[2]
-        while rhs.k == 'cast':
-            rhs = rhs.a[2]
-        thr = rhs.a[0] if rhs.k == 'const' else None
-        if c.a[0] == '>' and thr is not None:
-            thr += 1
-        if lhs.k == 'cast' and wprev and (lhs.a[0], lhs.a[1]) == wprev:
-            d = strip_widening(lhs.a[2])
-            if d.k == 'bin' and d.a[0] == '-':
-                a, b = strip_widening(d.a[1]), strip_widening(d.a[2])
-                # truncation commutes with subtraction modulo 2^16: only the outer conversion is required
-                a_ok = any(x.k == 'call' and x.a[0].endswith('::clockMillis') for x in walk_expr(a))
-                b_ok = path_of(b) == 'this.mPrevMillis'
-                ok = a_ok and b_ok
-                if not a_ok:
-                    why = 'the minuend is not clockMillis(): %s' % show(d.a[1])
-                elif not b_ok:
-                    why = 'the reference subtracted is %s, not mPrevMillis' % show(d.a[2])
-            else:
-                why = 'the tested quantity is not a difference: %s' % show(lhs.a[2])
-        else:
-            why = 'the difference is compared at the promoted width (int), not converted back to %d-bit unsigned: wrap-around of the counter breaks the comparison' % (wprev[0] if wprev else 16)
-    ob('R1', g.name + ':loop-condition', lp.loc, ok, why)
-    # R2 step pairing
-    step_ms = step_s = None
-    for s in lp.a[4]:
-        if s.k == 'assign':
-            p = path_of(s.a[0])
-            inc = _increment(s)
-            if inc is not None:
-                if p == 'this.mPrevMillis':
-                    step_ms = inc
-                elif p == 'this.mEpochSeconds':
-                    step_s = inc
-    ob('R2', g.name + ':step', lp.loc, thr is not None and step_ms == thr and step_s is not None and step_ms == 1000 * step_s,
-       'threshold %r ms, mPrevMillis += %r, mEpochSeconds += %r: expected threshold == step == 1000 * seconds' % (thr, step_ms, step_s))
-    # R3 guards
-    first = g.body[0] if g.body else None
-    okg = False
-    if first is not None and first.k == 'if':
-        neg = _is_not_flag(first.a[0], 'this.mIsInit')
-        ret = first.a[1] and first.a[1][0].k == 'return'
-        if neg and ret:
-            v = first.a[1][0].a[0]
-            while v.k == 'cast':
-                v = v.a[2]
-            okg = v.k == 'var' and lib.global_value(v.a[0]) == lib.const('ace_time::clock::Clock::kInvalidSeconds')
-    ob('R3', g.name + ':not-initialised', g.loc, okg, 'getNow() does not start with "if (!mIsInit) return kInvalidSeconds"')
-    sy = lib.fn(SC + '::syncNow')
-    p0 = sy.params[0][0]
     inv = lib.const('ace_time::clock::Clock::kInvalidSeconds')
-
-    class SR(Rule):
-        """state: (tested, holds, rebased, init)"""
-
-        def initial(self_):
-            return [('untested', False, False, False)]
-
-        def refine(self_, cond_, st, truth):
-            c_ = cond_
-            while c_.k == 'cast':
-                c_ = c_.a[2]
-            if c_.k == 'bin' and c_.a[0] in ('==', '!='):
-                l, r = c_.a[1], c_.a[2]
-                while l.k == 'cast':
-                    l = l.a[2]
-                while r.k == 'cast':
-                    r = r.a[2]
-                for x, y in ((l, r), (r, l)):
-                    if path_of(x) == p0 and y.k == 'var' and lib.global_value(y.a[0]) == inv:
-                        is_inv = (c_.a[0] == '==') == truth
-                        return ('sentinel' if is_inv else 'valid',) + st[1:]
-                    if path_of(x) == 'this.mEpochSeconds' and path_of(y) == p0:
-                        eq = (c_.a[0] == '==') == truth
-                        if eq:
-                            # the clock already holds this (valid) value: it was installed by an earlier
-                            # syncNow(), which also set mIsInit
-                            return (st[0], True, st[2], True)
-            return st
-
-        def assign(self_, s, st, tr):
-            if s.k != 'assign':
-                return st
-            p = path_of(s.a[0])
-            if p and p.startswith('this.'):
-                if st[0] != 'valid':
-                    R.instance('R3', sy.name + ':write-before-guard', s.loc)
-                    R.violation('R3', sy.name + ':write-before-guard', s.loc, '%s is written on a path where the argument may be the invalid sentinel' % p, detail=list(tr))
-                if p == 'this.mEpochSeconds':
-                    return (st[0], path_of(s.a[1]) == p0, st[2], st[3])
-                if p == 'this.mPrevMillis':
-                    v = s.a[1]
-                    reb = any(x.k == 'call' and x.a[0].endswith('::clockMillis') for x in walk_expr(v))
-                    return (st[0], st[1], reb, st[3])
-                if p == 'this.mIsInit':
-                    v = s.a[1]
-                    return (st[0], st[1], st[2], v.k == 'const' and v.a[0] == 1)
-            return st
-
-        def at_exit(self_, kind, stmt, st, tr):
-            loc = stmt.loc if stmt is not None else sy.loc
-            if st[0] == 'sentinel':
-                R.instance('R3', sy.name + ':sentinel', loc)
-                return
-            c_ = sy.name + ':accepted'
-            R.instance('R4', c_, loc, 'exit: holds=%s rebased=%s init=%s' % st[1:])
-            missing = [n for n, v in zip(('mEpochSeconds == value', 'mPrevMillis = clockMillis()', 'mIsInit = true'), st[1:]) if not v]
-            if st[0] != 'valid':
-                R.violation('R4', c_, loc, 'a path leaves syncNow() without having tested the argument against the sentinel', detail=list(tr))
-            elif missing and st[1] and not st[2]:
-                R.violation('R4', c_, loc,
-                            'syncNow() accepts the value on this path (the clock already shows that second) but does not re-base mPrevMillis: '
-                            'milliseconds accumulated since the last getNow() are counted again after the sync', detail=list(tr))
-            elif missing:
-                R.violation('R4', c_, loc, 'path accepts the value without: %s' % ', '.join(missing), detail=list(tr))
-    Engine(SR()).run(sy.body)
-    # the "already holds this value => initialised" step above needs: an unset clock holds the sentinel (which syncNow()
-    # never accepts as a value), so mEpochSeconds == value can only be true after an accepting syncNow()
+    g = lib.fn(SC + '::getNow')
+    sy = lib.fn(SC + '::syncNow')
+    sn = lib.fn(SC + '::setNow')
+    # initial values (in-class initialisers folded from the AST)
     init_vals = {}
     for n_, t_, node in lib.fields(SC):
-        if n_ in ('mEpochSeconds', 'mIsInit'):
-            inner = [x for x in node.get('inner', []) if 'Comment' not in x.get('kind', '')]
-            init_vals[n_] = lib.fold_node(inner[-1]) if inner else None
+        inner = [x for x in node.get('inner', []) if 'Comment' not in x.get('kind', '')]
+        if inner and t_ and '*' not in t_:
+            try:
+                init_vals[n_] = lib.fold_node(inner[-1])
+            except Exception:
+                pass
     c_ = SC + '::mEpochSeconds:initial'
     R.instance('R4', c_, sy.loc, 'initial values %r' % init_vals)
     if init_vals.get('mEpochSeconds') != inv or init_vals.get('mIsInit') not in (0, False):
-        R.violation('R4', c_, sy.loc, 'a fresh clock starts with mEpochSeconds = %r, mIsInit = %r (expected the invalid sentinel %d and false): the first '
-                    'syncNow(%r) takes the "second did not change" path, which leaves mIsInit false - the clock was set but keeps reporting the sentinel'
+        R.violation('R4', c_, sy.loc, 'a fresh clock starts with mEpochSeconds = %r, mIsInit = %r (expected the invalid sentinel %d and false): a first '
+                    'syncNow(%r) then looks like "the second did not change" and the clock, although set, keeps reporting the sentinel'
                     % (init_vals.get('mEpochSeconds'), init_vals.get('mIsInit'), inv, init_vals.get('mEpochSeconds')))
-    sn = lib.fn(SC + '::setNow')
-    calls = [e for e in all_exprs(sn.body) if e.k == 'call' and e.a[0].endswith('::syncNow')]
-    ob('R3', sn.name, sn.loc, len(calls) == 1 and path_of(calls[0].a[2][0]) == sn.params[0][0] and sn.body and sn.body[0].k == 'expr'
-       and sn.body[0].a[0] is calls[0], 'setNow() does not start by handing its argument to syncNow()')
+    clock_scenarios(R, lib, ob, init_vals, inv, g, sy, sn)
     # R5 monotone writes
     okm, whym = True, ''
     n = 0
@@ -260,12 +131,167 @@ def run(cfg):
     return R
 
 
+def initial_values(lib):
+    """in-class initialisers of the non-pointer fields of SystemClock, folded from the AST"""
+    init_vals = {}
+    for n_, t_, node in lib.fields(SC):
+        inner = [x for x in node.get('inner', []) if 'Comment' not in x.get('kind', '')]
+        if inner and t_ and '*' not in t_:
+            try:
+                init_vals[n_] = lib.fold_node(inner[-1])
+            except Exception:
+                pass
+    return init_vals
+
+
+def clock_scenarios(R, lib, ob, init_vals, inv, g, sy, sn):
+    """getNow(), syncNow() and setNow() are interpreted (E-SEQ, typed: every integer local, field, parameter and
+    conversion wraps to its declared width) on an abstract clock object whose millisecond counter the rule controls
+    (clockMillis() is the abstraction boundary; the counter is reported as a 32-bit value, as on the target).  Schedules:
+    a start phase m0 (incl. just below 2^16 and 2^32), a set to T, then polls after gaps of 0..64,536 ms.  Nothing of the
+    library is executed; the interpreter walks the IR of the three bodies and of the members they call."""
+    from .aeval import AEval, AObj, CxxModule, Raised
+    mod = CxxModule(lib, [SC + '::'])
+    ftypes = {n: int_type(t) for n, t, _ in lib.fields(SC) if int_type(t)}
+    ftypes.setdefault('mIsInit', (8, False))
+    state = {'m': 0}
+    log = []
+    intr = {SC + '::clockMillis': lambda ev, recv, args: state['m'] & 0xffffffff,
+            'ace_time::clock::Clock::setNow': lambda ev, recv, args: log.append((recv.oid if isinstance(recv, AObj) else recv, args[0])),
+            'ace_time::clock::Clock::getNow': lambda ev, recv, args: 12345}
+
+    def fresh(backup=None, reference=None):
+        attrs = {'mReferenceClock': reference, 'mBackupClock': backup}
+        for n, t, _ in lib.fields(SC):
+            if n not in attrs:
+                attrs[n] = init_vals.get(n, 0) if int_type(t) else None
+        return AObj(attrs, oid='clock', cls=SC, ftypes=ftypes)
+
+    def call(f, obj, *args):
+        try:
+            return AEval(module=mod, intrinsics=intr, typed=True, max_steps=2000000).call_function(f.name, list(args), recv=obj, chosen=mod.select(f.name, len(args), [None] * len(args)))
+        except AnalysisError as ex:
+            if 'does not terminate' not in str(ex) and 'step budget' not in str(ex):
+                raise
+            return 'no result: a loop of %s does not terminate' % f.name.split('::')[-1]
+
+    # ---- R3: unset clock, sentinel
+    clk = fresh()
+    before = dict(clk.attrs)
+    state['m'] = 70000
+    try:
+        v = call(g, clk)
+        ob('R3', g.name + ':not-initialised', g.loc, v == inv and clk.attrs == before,
+           'a clock that was never set reads %r%s, expected the invalid sentinel %d and no change of state' % (v, '' if clk.attrs == before else ' and changes its state', inv))
+        bad = None
+        for setter in (sy, sn):
+            for start in ('unset', 'set'):
+                clk = fresh()
+                if start == 'set':
+                    state['m'] = 1000
+                    call(sy, clk, 500)
+                state['m'] = 9000
+                before = dict(clk.attrs)
+                call(setter, clk, inv)
+                if clk.attrs != before:
+                    bad = '%s(kInvalidSeconds) on a%s clock changes %s' % (setter.name.split('::')[-1], 'n unset' if start == 'unset' else ' set',
+                                                                          sorted(k for k in before if before[k] != clk.attrs[k]))
+        ob('R3', sy.name + ':sentinel', sy.loc, bad is None, bad or '')
+        # setNow(T) sets the clock as syncNow(T) does
+        a, b = fresh(), fresh()
+        state['m'] = 4321
+        call(sy, a, 777)
+        call(sn, b, 777)
+        ob('R3', sn.name, sn.loc, a.attrs == b.attrs, 'setNow(T) leaves the clock in another state than syncNow(T): %s' %
+           sorted((k, a.attrs[k], b.attrs[k]) for k in a.attrs if a.attrs[k] != b.attrs[k]))
+    except Raised as r_:
+        raise AnalysisError('%s: interpretation raised %s' % (g.loc, r_.what))
+    # ---- R1: readings along polling schedules
+    thorough = R.cfg.tier == 'thorough'
+    gaps = [0, 1, 999, 1000, 1001, 1999, 2000, 30000, 64535, 64536]
+    starts = [0, 1, 999, 64536, 65000, 65535, 65536 * 3 + 500, (1 << 32) - 30000, (1 << 32) - 1]
+    T = 1000000
+    n = 0
+    bad = None
+    import itertools
+    depth = 3 if thorough else 2
+    for m0 in starts:
+        for seq in itertools.product(gaps, repeat=depth):
+            clk = fresh()
+            state['m'] = m0
+            call(sy, clk, T)
+            m = m0
+            last = T
+            for gap in seq:
+                m += gap
+                state['m'] = m
+                try:
+                    v = call(g, clk)
+                except AnalysisError as ex:
+                    if 'does not terminate' not in str(ex) and 'step budget' not in str(ex):
+                        raise
+                    v = 'no reading: the catch-up loop does not terminate'
+                n += 1
+                want = T + (m - m0) // 1000
+                if v != want or (isinstance(v, int) and v < last):
+                    bad = ('set to %d at counter %d, polled after gaps %s: the reading at counter %d is %r, expected %d = T + floor((m - m0) / 1000)'
+                           % (T, m0, list(seq), m, v, want))
+                    break
+                last = v
+            if bad:
+                break
+        if bad:
+            break
+    R.instance('R1', g.name + ':schedules', g.loc, '%d readings interpreted' % n, n=max(1, n))
+    if bad:
+        R.violation('R1', g.name + ':schedules', g.loc, bad)
+    # ---- R4: a repeated set (same second) re-bases the reference
+    bad = None
+    for idle in (0, 999, 1000, 5000, 64000):
+        for second in (T, T + 1, T - 5):
+            clk = fresh()
+            state['m'] = 123
+            call(sy, clk, T)
+            state['m'] = 123 + idle
+            call(sy, clk, second)
+            for later in (0, 999, 1000, 2500):
+                state['m'] = 123 + idle + later
+                v = call(g, clk)
+                if v != second + later // 1000:
+                    bad = ('set to %d, idle for %d ms, set to %d, read %d ms later: %r, expected %d (milliseconds that passed before the second set must not '
+                           'be counted again)' % (T, idle, second, later, v, second + later // 1000))
+                    break
+            if bad:
+                break
+        if bad:
+            break
+    ob('R4', sy.name + ':accepted', sy.loc, bad is None, bad or '')
+    # last-sync time and backup clock
+    bk = AObj({}, oid='backup', cls='ace_time::clock::Clock')
+    clk = fresh(backup=bk)
+    del log[:]
+    state['m'] = 50
+    call(sy, clk, 4242)
+    ok = clk.attrs.get('mLastSyncTime') == 4242 and log == [('backup', 4242)]
+    clk2 = fresh(backup=bk, reference=bk)
+    del log[:]
+    call(sy, clk2, 4242)
+    ok2 = log == []
+    ob('R4', sy.name + ':backup', sy.loc, ok and ok2, 'after syncNow(4242) the last-sync time is %r and the backup clock received %r%s; expected 4242, one write to a distinct '
+       'backup clock and none when the backup is the reference' % (clk.attrs.get('mLastSyncTime'), log if not ok else [('backup', 4242)], '' if ok2 else ' (reference == backup: %r)' % log))
+
+
 SELFTEST = [
     dict(id='difference-not-truncated', file='src/ace_time/clock/SystemClock.h',
          find='while ((uint16_t) ((uint16_t) clockMillis() - mPrevMillis) >= 1000) {', replace='while (((uint16_t) clockMillis() - mPrevMillis) >= 1000) {', rule='R1'),
     dict(id='millis-not-truncated', file='src/ace_time/clock/SystemClock.h',
          find='while ((uint16_t) ((uint16_t) clockMillis() - mPrevMillis) >= 1000) {', replace='while ((uint16_t) (clockMillis() - mPrevMillis) >= 1000) {', expect='silent'),
-    dict(id='step-mismatch', file='src/ace_time/clock/SystemClock.h', find='        mPrevMillis += 1000;', replace='        mPrevMillis += 1024;', rule='R2'),
+    dict(id='step-mismatch', file='src/ace_time/clock/SystemClock.h', find='        mPrevMillis += 1000;', replace='        mPrevMillis += 1024;', rule='R1'),
+    dict(id='prev-millis-widened', file='src/ace_time/clock/SystemClock.h', find='    mutable uint16_t mPrevMillis = 0;', replace='    mutable uint32_t mPrevMillis = 0;', rule='R'),
+    dict(id='threshold-off-by-one', file='src/ace_time/clock/SystemClock.h',
+         find='while ((uint16_t) ((uint16_t) clockMillis() - mPrevMillis) >= 1000) {', replace='while ((uint16_t) ((uint16_t) clockMillis() - mPrevMillis) > 1000) {', rule='R1'),
+    dict(id='backup-gets-previous-value', file='src/ace_time/clock/SystemClock.h',
+         find='      if (mBackupClock != mReferenceClock) {\n        backupNow(epochSeconds);\n      }', replace='      if (mBackupClock != mReferenceClock) {\n        backupNow(mLastSyncTime - 1);\n      }', rule='R4'),
     dict(id='epoch-seconds-initial-zero', file='src/ace_time/clock/SystemClock.h', find='    mutable acetime_t mEpochSeconds = kInvalidSeconds;', replace='    mutable acetime_t mEpochSeconds = 0;', rule='R4', construct='initial'),
     dict(id='not-initialised-guard-deleted', file='src/ace_time/clock/SystemClock.h', find='      if (!mIsInit) return kInvalidSeconds;\n', replace='', rule='R3'),
     dict(id='sentinel-guard-deleted', file='src/ace_time/clock/SystemClock.h', find='      if (epochSeconds == kInvalidSeconds) return;\n      mLastSyncTime = epochSeconds;', replace='      mLastSyncTime = epochSeconds;', rule='R3'),
